@@ -371,20 +371,20 @@ def nextVersionS (sg : List (Nat × List String × Option Pending)) : Nat :=
 
 def pushSig (o : Op) (base : Nat) (sg : List (Nat × List String × Option Pending)) :
     List (Nat × List String × Option Pending) :=
-  match rowOpS o (sg.head?.map (·.2.1)) with
+  match rowOpS o (sg.head?.map (·.2.1.eraseDups)) with
   | some svcs => (nextVersionS sg, svcs, some { typ := o.chType, tx := base }) :: sg
   | none => sg
 
 theorem sig_pushRow (o : Op) (base now : Nat) (r : DidRow) (hs : r.subject = o.subject) :
     sig (pushRow o base now r) = pushSig o base (sig r) := by
-  have h1 := rowOp_svcs o (base + r.id) (r.vers.head?.map (·.c))
-  have h2 : (sig r).head?.map (·.2.1) = (r.vers.head?.map (·.c)).map (·.svcs) := by
-    unfold sig; cases r.vers <;> simp
+  have h1 := rowOp_svcs o (base + r.id) (r.vers.head?.map (fun v => loadContent v.c))
+  have h2 : (sig r).head?.map (·.2.1.eraseDups) = (r.vers.head?.map (fun v => loadContent v.c)).map (·.svcs) := by
+    unfold sig; cases r.vers <;> simp [loadContent]
   have h3 : nextVersionS (sig r) = nextVersion r.vers := by
     unfold sig nextVersionS nextVersion; cases r.vers <;> simp
   unfold pushRow pushSig newContent
   rw [if_pos hs, h2, ← h1, h3]
-  cases rowOp o (base + r.id) (r.vers.head?.map (·.c)) with
+  cases rowOp o (base + r.id) (r.vers.head?.map (fun v => loadContent v.c)) with
   | none => rfl
   | some c => simp [sig]
 
@@ -400,7 +400,7 @@ theorem pushRow_cases (o : Op) (base now : Nat) (r : DidRow) :
   unfold pushRow newContent
   by_cases hs : r.subject = o.subject
   · rw [if_pos hs]
-    cases hro : rowOp o (base + r.id) (r.vers.head?.map (·.c)) with
+    cases hro : rowOp o (base + r.id) (r.vers.head?.map (fun v => loadContent v.c)) with
     | none => exact Or.inl rfl
     | some c => exact Or.inr ⟨hs, rowOp_some_not_create hro, c, rfl⟩
   · rw [if_neg hs]; exact Or.inl rfl
@@ -1667,8 +1667,8 @@ theorem stopped_then_swept {cfg : Cfg} (hfix : Fixed cfg) (hms : cfg.methods.Nod
         split at hc
         · rw [if_pos hfix.notFound] at hc; cases hc
         · rename_i cur hcur
-          simp only [Res.ok.injEq, beq_iff_eq] at hc
-          rw [hcur, hc]
+          simp only [Res.ok.injEq, Bool.and_eq_true, beq_iff_eq] at hc
+          rw [hcur, hc.1]
     | false =>
       left
       have hsel : ∀ r ∈ wS.dids, dropSel cfg (selOld (inOldTx cfg wS) w0.next) r = dropSel cfg (selTx w0.next) r := by
@@ -1690,5 +1690,45 @@ theorem stopped_then_swept {cfg : Cfg} (hfix : Fixed cfg) (hms : cfg.methods.Nod
         rw [this]
       simp only [sweepRows, Bool.false_eq_true, if_false]
       rw [filterMap_congr' hsel, hSd, tx1_restore hfix hi ht, map_clearRow_id hnone]
+
+/-! ### what the commit loop publishes -/
+
+theorem commitLoop_failNuts_pub (chs : List Change) : ∀ (order : List Method) (i : Nat) (pub : Nat → List Content),
+    (commitLoop .failNuts chs order i pub).1 = pub
+  | [], _, _ => rfl
+  | m :: ms, i, pub => by
+    unfold commitLoop
+    split
+    · exact commitLoop_failNuts_pub chs ms i pub
+    · split
+      · rfl
+      · cases m with
+        | web => exact commitLoop_failNuts_pub chs ms (i + 1) pub
+        | nuts => simp
+
+theorem commitLoop_stop0_pub (chs : List Change) : ∀ (order : List Method) (pub : Nat → List Content),
+    (commitLoop (.stop 0) chs order 0 pub).1 = pub
+  | [], _ => rfl
+  | m :: ms, pub => by
+    unfold commitLoop
+    split
+    · exact commitLoop_stop0_pub chs ms pub
+    · simp
+
+/-- the world an operation leaves behind when the process stops (before a Commit call or before the clean-up) -/
+theorem stepOp_stopped {cfg : Cfg} {w w1 : World} {o : Op} {chs : List Change} (order : List Method) (k : Nat)
+    (ht : tx1 cfg w o = .ok (w1, chs))
+    (hph : (commitLoop (.stop k) chs order 0 w1.pub).2 = .stopped ∨
+           ∃ i, (commitLoop (.stop k) chs order 0 w1.pub).2 = .completed i ∧ i ≤ k) :
+    (stepOp cfg w o order (.stop k)).1 = { w1 with pub := (commitLoop (.stop k) chs order 0 w1.pub).1 } := by
+  unfold stepOp
+  rw [ht]
+  simp only
+  rcases hcl : commitLoop (.stop k) chs order 0 w1.pub with ⟨pub, ph⟩
+  rw [hcl] at hph
+  simp only at hph
+  rcases hph with rfl | ⟨i, rfl, hik⟩
+  · rfl
+  · simp [hik]
 
 end Nuts.C13
